@@ -1,7 +1,7 @@
 """C10 -- tier set operations obey the algebra of labelled time."""
 import itertools
 import sys
-from .. import core, gen, tierops, obshist
+from .. import core, gen, tierops, tgops, obshist
 
 ID = "C10"
 MODULE = "Check.C10Check"
@@ -100,13 +100,26 @@ def run(case):
                 for n in ns[1:]:
                     acc = acc.union(built[n])
                 exp[k] = core.snap_tier(acc, sc)
-        return {"names": list(r.tierNames), "tiers": [core.snap_tier(x, sc) for x in r.tiers], "exp": exp}
+        return {"names": list(r.tierNames), "tiers": [core.snap_tier(x, sc) for x in r.tiers], "exp": exp,
+                "min": core.tk(r.minTimestamp, sc), "max": core.tk(r.maxTimestamp, sc)}
     return core.run_guarded(f)
 
 
 def emit(case, r):
     if case["op"] == "mergeTiers":
-        return None
+        # the textgrid that came back against the textgrid-level model, on exact grids
+        if case["scale"][0] != "dyadic" or ("ok" not in r and "err" not in r):
+            return None
+        tiers = case["tiers"]
+        g = tgops.ctg({"tiers": tiers, "min": min(t["min"] for t in tiers), "max": max(t["max"] for t in tiers)})
+        sel = case["args"]["names"]
+        csel = "None" if sel is None else "(Some %s)" % core.clist([core.ctext(n) for n in sel], "text")
+        if "ok" in r:
+            v = r["ok"]
+            out = "(Ok %s)" % tgops.ctg({"tiers": v["tiers"], "min": v["min"], "max": v["max"]})
+        else:
+            out = "(Err %s)" % r["err"]
+        return "TgMergeC %s %s %s %s" % (g, csel, core.cbool(case["args"]["preserve"]), out)
     A, B = case["tier"], case["args"]["other"]
     if A["kind"] == "P":
         return "UnionP %s %s %s" % (core.cptier(A), core.cptier(B), core.cres(r, core.cptier))
